@@ -81,11 +81,11 @@ def snapshot(e):
     return out
 
 
-def abs_eq(a, b, path='self'):
+def abs_eq(a, b, path='self', insertion=True):
     """abstract equality of two element trees; returns None or a description of the first difference"""
     if type(a) is not type(b):
         return f'{path}: class {type(a).__name__} vs {type(b).__name__}'
-    if a._value != b._value:
+    if a._value != b._value or type(a._value) is not type(b._value):
         return f'{path}: value {a._value!r} vs {b._value!r}'
     if a._xsd_check != b._xsd_check:
         return f'{path}: xsd_check {a._xsd_check!r} vs {b._xsd_check!r}'
@@ -100,6 +100,8 @@ def abs_eq(a, b, path='self'):
             ca, cb = a.get_children(ordered=view), b.get_children(ordered=view)
         except Exception as ex:
             return f'{path}: get_children raises {ex!r}'
+        if not view and a._xsd_check and not insertion:
+            continue      # pre-states built with removals: the two views of the original may already disagree (C06 findings); only the serialised view is the copy's obligation
         if len(ca) != len(cb):
             return f'{path}: {"ordered" if view else "insertion"} view has {len(ca)} vs {len(cb)} children'
         if not view and a._xsd_check:
@@ -117,10 +119,33 @@ def abs_eq(a, b, path='self'):
     for i, (x, y) in enumerate(zip(pa, pb)):
         if y._parent is not b:
             return f'{path}/{i}: copied child does not report the copy as its parent'
-        d = abs_eq(x, y, f'{path}/{i}:{type(x).__name__}')
+        d = abs_eq(x, y, f'{path}/{i}:{type(x).__name__}', insertion)
         if d:
             return d
     return None
+
+
+_DV = {}
+
+
+def distinct_values(ctk):
+    """up to four different values the reference schema allows for the element type (one if it has no text or only one is known)"""
+    if ctk in _DV:
+        return _DV[ctk]
+    v0 = elem.valid_value(ctk)
+    out = [v0]
+    st = xsdspec.element_simple_type(ctk)
+    if st and v0 != '':
+        d = xsdspec.SIMPLE[st]
+        if d.enums and len(d.enums) > 1:
+            out = list(d.enums[:4])
+        elif d.prim in ('integer', 'decimal') and not d.enums:
+            cand = [v0, 2, 3, 4]
+            out = [v for k, v in enumerate(cand) if v not in cand[:k]]     # filtered by the library's own verdict where they are used
+        elif d.prim == 'string' and not d.patterns and not d.builtin_pattern and d.enums is None:
+            out = [v0, 'text b', 'text c', 'text d']
+    _DV[ctk] = out or [v0]
+    return _DV[ctk]
 
 
 def task(args):
@@ -152,7 +177,25 @@ def task(args):
         c = getattr(X, ccn)
         return c(v, xsd_check=check) if v != '' else c(xsd_check=check)
 
-    def run_case(label, build):
+    okvals = {}
+
+    def dchild(nm, j, check=False):
+        """child number j of a history: values differ between children where the child's simple type has more than one"""
+        ccn, ctk = table[nm]
+        c = getattr(X, ccn)
+        if ccn not in okvals:
+            okvals[ccn] = []
+            for v in distinct_values(ctk):
+                try:
+                    c(v, xsd_check=False) if v != '' else c(xsd_check=False)
+                    okvals[ccn].append(v)
+                except Exception:
+                    pass
+        vs = okvals[ccn] or [elem.valid_value(ctk)]
+        v = vs[j % len(vs)]
+        return c(v, xsd_check=check) if v != '' else c(xsd_check=check)
+
+    def run_case(label, build, insertion=True):
         """build() -> element in the pre-state; checks the three clauses"""
         try:
             e = build()
@@ -166,7 +209,7 @@ def task(args):
         after = snapshot(e)
         if before != after:
             return f'{label}: the original was modified by deepcopy'
-        d = abs_eq(e, c)
+        d = abs_eq(e, c, insertion=insertion)
         if d:
             return f'{label}: copy differs: {d}'
         ra, rb = owned_region(e), owned_region(c)
@@ -218,12 +261,20 @@ def task(args):
             elif d.prim == 'string' and not d.patterns and not d.builtin_pattern and d.enums is None:
                 alt = 'other text'
 
-            def build():
-                e = mk()
-                if alt is not None:
-                    e.value_ = alt
-                return e
-            r = run_case(f'value_ changed to {alt!r}', build)
+            alts = [alt]
+            if isinstance(alt, int):
+                alts.append(float(alt))       # the same number under the other numeric type (text '2.0', not '2')
+            r = None
+            for al in alts:
+                def build(al=al):
+                    e = mk()
+                    if al is not None:
+                        e.value_ = al
+                    return e
+                r = run_case(f'value_ changed to {al!r}', build)
+                if r:
+                    alt = al
+                    break
             obs.append(dict(oid=f'C14/value/{name}', status='discharged' if not r else 'violated', detail=r, level='finite-complete', paths=1,
                             name=name, cname=cname, kind='value', alt=alt))
         # ---- children (bounded: in-order words of the reference model up to kbound), checked and unchecked parents
@@ -252,10 +303,32 @@ def task(args):
                     if r:
                         fails.append(r)
                         fail_words.append((list(w), xsd))
-            # nested: grandchildren are copied by the same contract
+            # histories with a removal: word, remove child i, add a fresh child of the same kind (it takes the freed slot of the
+            # serialised view but the last place of the insertion list); children carry distinct values where their type has several
+            hist_fail = None
+            for xsd in (True, False):
+                for w in words[:120]:
+                    for i in range(len(w)):
+                        def build(w=w, xsd=xsd, i=i):
+                            e = mk(xsd_check=xsd)
+                            cs = [e.add_child(dchild(nm, j)) for j, nm in enumerate(w)]
+                            e.remove(cs[i])
+                            e.add_child(dchild(w[i], len(w)))
+                            return e
+                        n += 1
+                        try:
+                            build()
+                        except Exception:
+                            skipped += 1       # removal / re-add refused or failing: C11 / C06 findings, not a pre-state here
+                            continue
+                        r = run_case(f'children {list(w)} then remove #{i} and add {w[i]} again, xsd_check={xsd}', build, insertion=False)
+                        if r:
+                            fails.append(r)
+                            if hist_fail is None:
+                                hist_fail = (list(w), xsd, i)
             obs.append(dict(oid=f'C14/children/{name}', status='discharged' if not fails else 'violated', detail='; '.join(fails[:2]) or None,
                             level='bounded', paths=n, name=name, cname=cname, kind='children', bound=kbound, skipped=skipped,
-                            word=(fail_words and fail_words[0]) or None))
+                            word=(fail_words and fail_words[0]) or None, hist=hist_fail))
     finally:
         AT.XSDAttribute.__call__ = real_call
     return obs
@@ -304,12 +377,37 @@ print('children shared between copy and original:', shared)
 print({o['detail']!r})
 sys.exit(0 if a == b and not shared and all(ch.get_parent() is c for ch in c.get_children()) else 1)
 '''
+    if o['kind'] == 'children' and o.get('hist'):
+        w, xsd, i = o['hist']
+        tab = elem.element_table()
+        vals = {nm: distinct_values(tab[nm][1]) for nm in set(w)}
+        classes = {nm: tab[nm][0] for nm in set(w)}
+        sep = ', ' if value != '' else ''
+        return head + f'''import xml.etree.ElementTree as ET
+vals = {vals!r}; classes = {classes!r}; w = {list(w)!r}
+def child(nm, j):
+    c = getattr(X, classes[nm]); ok = []
+    for v in vals[nm]:
+        try:
+            c(v, xsd_check=False) if v != '' else c(xsd_check=False); ok.append(v)
+        except Exception: pass
+    v = ok[j % len(ok)]
+    return c(v, xsd_check=False) if v != '' else c(xsd_check=False)
+e = {mk}{sep}xsd_check={xsd})
+cs = [e.add_child(child(nm, j)) for j, nm in enumerate(w)]
+e.remove(cs[{i}]); e.add_child(child(w[{i}], len(w)))
+c = copy.deepcopy(e)
+a = ET.tostring(e.et_xml_element, encoding='unicode'); b = ET.tostring(c.et_xml_element, encoding='unicode')
+print(a); print(b)
+print({o['detail']!r})
+sys.exit(0 if a == b else 1)
+'''
     if o['kind'] == 'value':
         return head + f'''e = {mk}); e.value_ = {o.get('alt')!r}
 c = copy.deepcopy(e)
 print(e.value_, c.value_)
 print({o['detail']!r})
-sys.exit(0 if e.value_ == c.value_ else 1)
+sys.exit(0 if repr(e.value_) == repr(c.value_) else 1)
 '''
     return None
 
